@@ -11,53 +11,52 @@ Section AnyStages.
   Variable f : L -> KeyCode -> Modifiers -> HandleControl -> outcome DecodedKey.
   Variable adv : S -> N -> outcome (S * Result (option KeyEvent) Error).
 
-  Ltac kb_unfold :=
-    cbv [Keyboard_add_byte Keyboard_add_word Keyboard_add_bit Keyboard_process_keyevent Keyboard_clear
-         Keyboard_set_ctrl_handling Keyboard_get_modifiers Keyboard_get_ctrl_handling Keyboard_new
-         spec_add_byte spec_add_word spec_add_bit spec_kb_process spec_kb_clear spec_kb_set_mode
-         with_frame with_scan with_ev run_mut run_fn cbind cget cput cret call call_mut ctry cexit
-         Keyboard_ps2_decoder Keyboard_scancode_set Keyboard_event_decoder
-         Keyboard_set_ps2_decoder Keyboard_set_scancode_set Keyboard_set_event_decoder].
+  (* Shape-tolerant: unfold everything except the stage functions (helper functions of the Keyboard impl
+     included), then split on every stage result that is scrutinised. *)
+  Ltac kb_solve :=
+    cbv -[Ps2Decoder_add_bit Ps2Decoder_add_word Ps2Decoder_clear Ps2Decoder_new
+          EventDecoder_process_keyevent EventDecoder_set_ctrl_handling EventDecoder_get_ctrl_handling EventDecoder_new];
+    repeat match goal with
+           | |- context [match ?x with _ => _ end] =>
+               lazymatch x with
+               | context [match _ with _ => _ end] => fail     (* innermost scrutinees first *)
+               | _ => destruct x
+               end
+           end;
+    repeat match goal with u : unit |- _ => destruct u end;
+    reflexivity.
 
   Theorem C18_add_byte : forall (k : Keyboard L S) b,
     Keyboard_add_byte f adv k b = spec_add_byte adv k b.
-  Proof. intros [p s d] b. kb_unfold. destruct (adv s b) as [[s' r]|]; reflexivity. Qed.
+  Proof. intros [p s d] b. kb_solve. Qed.
 
   Theorem C18_add_word : forall (k : Keyboard L S) w,
     Keyboard_add_word f adv k w = spec_add_word Ps2Decoder_add_word adv k w.
-  Proof.
-    intros [p s d] w. kb_unfold.
-    destruct (Ps2Decoder_add_word p w) as [[b|e]|]; try reflexivity.
-    destruct (adv s b) as [[s' r]|]; reflexivity.
-  Qed.
+  Proof. intros [p s d] w. kb_solve. Qed.
 
   Theorem C18_add_bit : forall (k : Keyboard L S) bit,
     Keyboard_add_bit f adv k bit = spec_add_bit Ps2Decoder_add_bit adv k bit.
-  Proof.
-    intros [p s d] bit. kb_unfold.
-    destruct (Ps2Decoder_add_bit p bit) as [[p' [[b|]|e]]|]; try reflexivity.
-    destruct (adv s b) as [[s' r]|]; reflexivity.
-  Qed.
+  Proof. intros [p s d] bit. kb_solve. Qed.
 
   Theorem C18_process_keyevent : forall (k : Keyboard L S) ev,
     Keyboard_process_keyevent f adv k ev = spec_kb_process (EventDecoder_process_keyevent f) k ev.
-  Proof. intros [p s d] ev. kb_unfold. destruct (EventDecoder_process_keyevent f d ev) as [[d' r]|]; reflexivity. Qed.
+  Proof. intros [p s d] ev. kb_solve. Qed.
 
   Theorem C18_clear : forall (k : Keyboard L S),
     Keyboard_clear f adv k = spec_kb_clear Ps2Decoder_clear k.
-  Proof. intros [p s d]. kb_unfold. destruct (Ps2Decoder_clear p) as [[p' []]|]; reflexivity. Qed.
+  Proof. intros [p s d]. kb_solve. Qed.
 
   Theorem C18_set_ctrl_handling : forall (k : Keyboard L S) hc,
     Keyboard_set_ctrl_handling f adv k hc = spec_kb_set_mode (EventDecoder_set_ctrl_handling f) k hc.
-  Proof. intros [p s d] hc. kb_unfold. destruct (EventDecoder_set_ctrl_handling f d hc) as [[d' []]|]; reflexivity. Qed.
+  Proof. intros [p s d] hc. kb_solve. Qed.
 
   Theorem C18_get_modifiers : forall (k : Keyboard L S),
     Keyboard_get_modifiers f adv k = Ret (EventDecoder_modifiers (Keyboard_event_decoder k)).
-  Proof. intros [p s d]. reflexivity. Qed.
+  Proof. intros [p s d]. kb_solve. Qed.
 
   Theorem C18_get_ctrl_handling : forall (k : Keyboard L S),
     Keyboard_get_ctrl_handling f adv k = EventDecoder_get_ctrl_handling f (Keyboard_event_decoder k).
-  Proof. intros [p s d]. kb_unfold. destruct (EventDecoder_get_ctrl_handling f d); reflexivity. Qed.
+  Proof. intros [p s d]. kb_solve. Qed.
 
   Theorem C18_new : forall s l hc,
     Keyboard_new f adv s l hc =
@@ -65,7 +64,7 @@ Section AnyStages.
     | Ret p, Ret d => Ret (Keyboard_mk p s d)
     | _, _ => Panic
     end.
-  Proof. intros s l hc. reflexivity. Qed.
+  Proof. intros s l hc. kb_solve. Qed.
 End AnyStages.
 
 (* consequences spelled out: isolation of the stages *)
